@@ -175,7 +175,7 @@ func planC07(w *World, spec RunSpec) {
 	w.Cfg.Granular = s.Chance(2, 3, "granular")
 	w.drawFaultMix("err-before", "lost-response", "crash", "compaction", "duplicate")
 	w.Cfg.Ndist = 100 + s.Intn(500, "ndist")
-	w.Scenario = GenOD(w, ODProfile{MaxEdits: 5, Pause: true, EmptyStart: true, Limits: true, NeverReady: s.Bool("never-ready")})
+	w.Scenario = GenOD(w, ODProfile{MaxEdits: 5, Pause: true, EmptyStart: true, Limits: true, NeverReady: s.Bool("never-ready"), Namesake: true})
 	w.StartProcesses()
 	w.Disturb(w.Cfg.Ndist)
 	w.finish()
@@ -188,7 +188,7 @@ func planC08(w *World, spec RunSpec) {
 	w.Cfg.Faults["drift"] = true
 	w.Cfg.Ndist = 150 + s.Intn(600, "ndist")
 	sliced := s.Chance(1, 3, "sliced")
-	w.Scenario = GenOD(w, ODProfile{MaxEdits: 5, Limits: true, NeverReady: !s.Chance(1, 4, "all-ready"), Delegation: s.Chance(1, 4, "delegation"), FinalDelete: true, Slices: sliced, SliceDrift: sliced && s.Bool("slice-drift"), Pause: s.Chance(1, 3, "pause-ops")})
+	w.Scenario = GenOD(w, ODProfile{MaxEdits: 5, Limits: true, NeverReady: !s.Chance(1, 4, "all-ready"), Delegation: s.Chance(1, 4, "delegation"), FinalDelete: true, Slices: sliced, SliceDrift: sliced && s.Bool("slice-drift"), Pause: s.Chance(1, 3, "pause-ops"), Namesake: true})
 	w.StartProcesses()
 	w.Disturb(w.Cfg.Ndist)
 	w.finish()
@@ -241,7 +241,7 @@ func planC11(w *World, spec RunSpec) {
 		w.Cfg.Templates = true
 		w.Scenario = GenOT(w, 4)
 	} else {
-		w.Scenario = GenOS(w, OSProfile{MaxSets: 2, Delegation: true, Lifecycle: true, LateCreate: true, Violations: true})
+		w.Scenario = GenOS(w, OSProfile{MaxSets: 2, Delegation: true, Lifecycle: true, LateCreate: true, Violations: true, AdmissionFlip: true})
 	}
 	w.StartProcesses()
 	w.Disturb(w.Cfg.Ndist)
